@@ -743,13 +743,21 @@ class TrajectoryStore:
                 'All trajectories in an indexable TrajectoryStore must have '
                 'flight_id field, and non-indexable stores must not have it'
             )
-        if self.indexable is None:
-            self.indexable = has_flight_id
+
+        # Check that every required value is present before touching the
+        # store, so that a rejected trajectory leaves no trace in it. (The
+        # same check during the write comes too late: by then the trajectory
+        # is counted, cached and partly written.)
+        for name, field in trajectory._data_dictionary.items():
+            if field.required and getattr(trajectory, name) is None:
+                raise ValueError(f'Data field "{name}" is None')
 
         # Maintain count of trajectories in store for indexing.
         saved_index = self._next_index
         self._trajectories[saved_index] = trajectory
         self._next_index += 1
+        if self.indexable is None:
+            self.indexable = has_flight_id
 
         # If this is the first trajectory added to the store, we might need to
         # create the NetCDF files.
